@@ -160,6 +160,16 @@ pub struct S5 {
     pub schedule: Option<Vec<u8>>,
 }
 
+/// What happened at the export path before the export under test (the path has a history).
+#[derive(Clone, Debug, Serialize, Deserialize, PartialEq, Eq)]
+#[serde(rename_all = "snake_case")]
+pub enum Prior {
+    /// an earlier, fault-free export of another circuit to the same path
+    Export(ProgSpec),
+    /// arbitrary old file contents
+    Bytes(Vec<u8>),
+}
+
 #[derive(Clone, Debug, Serialize, Deserialize, PartialEq, Eq)]
 pub struct World {
     /// circuit source; None for raw-text importer cases
@@ -181,6 +191,9 @@ pub struct World {
     /// explicit file contents (importer-only case)
     #[serde(default)]
     pub raw_text: Option<Vec<u8>>,
+    /// history of the export path before the export under test
+    #[serde(default)]
+    pub prior: Vec<Prior>,
 }
 
 fn yes() -> bool {
@@ -449,6 +462,27 @@ fn run_world_inner(w: &World) -> Obs {
         }
     }
 
+    // ---------------- the path's history: earlier exports / old contents at the same path
+    for pr in &w.prior {
+        match pr {
+            Prior::Bytes(b) => {
+                seams::disk_put(pstr, b.clone());
+                bump(&mut obs.counters, "prior_bytes");
+            }
+            Prior::Export(pp) => {
+                if let Ok(pc) = compile_ssa(pp, w.dedup) {
+                    seams::install_plan(Plan::default());
+                    if let ExportRes::Panic(m) = do_export(&pc, &pp.src, &path, false) {
+                        obs.findings.push(finding("export_panicked", &panic_site(&m), format!("earlier export panicked: {m}")));
+                    }
+                    obs.executions += 1;
+                    bump(&mut obs.counters, "prior_export");
+                }
+            }
+        }
+        obs.nontrivial = true;
+    }
+
     // ---------------- export under the write-side fault plan (or S5, or raw text)
     let mut export_ok = false;
     let mut hard_w = 0;
@@ -666,6 +700,7 @@ pub fn run_world(w: &World) -> Obs {
 
 pub struct Tier {
     pub sweep: u64,
+    pub history: u64,
     pub seeded: u64,
     pub corrupt: u64,
     pub text: u64,
@@ -674,9 +709,9 @@ pub struct Tier {
 
 pub fn tier(t: &str) -> Tier {
     if t == "thorough" {
-        Tier { sweep: 240, seeded: 40_000, corrupt: 60_000, text: 40_000, s5: 2_000 }
+        Tier { sweep: 240, history: 20_000, seeded: 40_000, corrupt: 60_000, text: 40_000, s5: 2_000 }
     } else {
-        Tier { sweep: 32, seeded: 4_000, corrupt: 6_000, text: 4_000, s5: 100 }
+        Tier { sweep: 32, history: 2_000, seeded: 4_000, corrupt: 6_000, text: 4_000, s5: 100 }
     }
 }
 
@@ -690,12 +725,12 @@ impl CasePlan {
         Ok(CasePlan { corpus: load_corpus()?, tier: tier(t) })
     }
     pub fn n_cases(&self) -> u64 {
-        self.tier.sweep + self.tier.seeded + self.tier.corrupt + self.tier.text + self.tier.s5
+        self.tier.sweep + self.tier.history + self.tier.seeded + self.tier.corrupt + self.tier.text + self.tier.s5
     }
     pub fn family(&self, idx: u64) -> (&'static str, u64) {
         let t = &self.tier;
         let mut i = idx;
-        for (name, n) in [("sweep", t.sweep), ("seeded", t.seeded), ("corrupt", t.corrupt), ("text", t.text), ("s5", t.s5)] {
+        for (name, n) in [("sweep", t.sweep), ("history", t.history), ("seeded", t.seeded), ("corrupt", t.corrupt), ("text", t.text), ("s5", t.s5)] {
             if i < n {
                 return (name, i);
             }
@@ -778,6 +813,31 @@ fn draw_read_plan(p: &mut Prng, len: usize) -> Plan {
         plan.open.insert(0, *p.pick(OPEN_R_ERRNOS));
     }
     plan
+}
+
+fn draw_priors(plan: &CasePlan, p: &mut Prng) -> Vec<Prior> {
+    let n = if p.chance(2, 3) { 1 } else { p.range(2, 3) };
+    (0..n)
+        .map(|_| match p.below(4) {
+            0 => {
+                // old contents: longer than most exports
+                let len = p.range(1, 6000) as usize;
+                let alphabet = b"0123456789 \n  XORANDINV12";
+                Prior::Bytes((0..len).map(|_| alphabet[p.usize_below(alphabet.len())]).collect())
+            }
+            1 => Prior::Export(draw_subject(plan, p, true)),
+            _ => {
+                // a deliberately larger circuit, so that a missing truncation leaves a tail
+                let ty = *p.pick(&["u16", "u32", "u8"]);
+                let op = *p.pick(&["+", "*", "-"]);
+                Prior::Export(ProgSpec {
+                    name: "prior".into(),
+                    src: format!("pub fn main(a: {ty}, b: {ty}) -> ({ty}, bool) {{\n    (a {op} b, a < b)\n}}\n"),
+                    consts: vec![],
+                })
+            }
+        })
+        .collect()
 }
 
 const TOKENS: &[&str] = &[
@@ -873,7 +933,7 @@ fn random_text(p: &mut Prng) -> Vec<u8> {
 
 fn reference_export(prog: &ProgSpec, dedup: bool, keys: Keys) -> Option<(Vec<u8>, u64, u64)> {
     // fault-free export to learn the size of the search space (write count, bytes)
-    let w = World { program: Some(prog.clone()), dedup, keys, export_plan: Plan::default(), corruptions: vec![], import_plan: Plan::default(), via_lib: false, s5: None, raw_text: None };
+    let w = World { program: Some(prog.clone()), dedup, keys, export_plan: Plan::default(), corruptions: vec![], import_plan: Plan::default(), via_lib: false, s5: None, raw_text: None, prior: vec![] };
     seams::reset_world();
     let w2 = w.clone();
     run_party(keys, move || {
@@ -909,6 +969,7 @@ pub fn make_world(plan: &CasePlan, seed: u64, idx: u64) -> (World, &'static str,
         via_lib: false,
         s5: None,
         raw_text: None,
+        prior: vec![],
     };
     match family {
         "seeded" => {
@@ -919,6 +980,26 @@ pub fn make_world(plan: &CasePlan, seed: u64, idx: u64) -> (World, &'static str,
             w.program = Some(prog);
             w.export_plan = draw_write_plan(&mut p, nw);
             w.import_plan = draw_read_plan(&mut p, len);
+            if p.chance(1, 3) {
+                w.prior = draw_priors(plan, &mut p);
+            }
+        }
+        "history" => {
+            // the path has a history: earlier exports / old contents, then the export under test
+            // (fault-free or transparent faults only), then the import
+            let prog = draw_subject(plan, &mut p, true);
+            let probe = reference_export(&prog, dedup, keys);
+            let (nw, len) = probe.as_ref().map(|(_, nw, n)| (*nw, *n as usize)).unwrap_or((50, 200));
+            w.program = Some(prog);
+            w.prior = draw_priors(plan, &mut p);
+            if p.chance(1, 2) {
+                for _ in 0..p.range(1, 4) {
+                    w.export_plan.write.insert(p.below(nw + 1), if p.chance(1, 2) { Act::Short(p.range(1, 5) as usize) } else { Act::Eintr });
+                }
+            }
+            if p.chance(1, 3) {
+                w.import_plan.read.insert(p.below((len / 8192 + 2) as u64), Act::Short(p.range(1, 30) as usize));
+            }
         }
         "corrupt" => {
             let prog = draw_subject(plan, &mut p, true);
@@ -1052,6 +1133,15 @@ pub fn minimise(w: &World, f: &Finding) -> (World, Finding) {
         let mut cand = best.clone();
         cand.export_plan.capacity = None;
         try_world(cand, &mut best, &mut bf);
+    }
+    // drop path history one entry at a time
+    let mut i = 0;
+    while i < best.prior.len() {
+        let mut cand = best.clone();
+        cand.prior.remove(i);
+        if !try_world(cand, &mut best, &mut bf) {
+            i += 1;
+        }
     }
     // drop corruptions one at a time
     let mut i = 0;
@@ -1197,6 +1287,16 @@ fn run_sweep(base: &World, acc: &mut Acc) {
         absorb(&o, &w, acc);
     };
     go(base.clone(), acc);
+    // the path's history: old contents / an earlier, larger export at the same path
+    for prior in [
+        Prior::Bytes(vec![b'7'; bytes.len() * 2 + 64]),
+        Prior::Bytes(b"1 1\n".to_vec()),
+        Prior::Export(ProgSpec { name: "prior".into(), src: "pub fn main(a: u16, b: u16) -> (u16, bool) {\n    (a + b, a < b)\n}\n".into(), consts: vec![] }),
+    ] {
+        let mut w = base.clone();
+        w.prior = vec![prior];
+        go(w, acc);
+    }
     // every write index x {short(1), short(mid), EINTR, ENOSPC, sticky EIO}
     for k in 0..nw {
         for act in [Act::Short(1), Act::Short(3), Act::Eintr, Act::Err(libc::ENOSPC), Act::ErrSticky(libc::EIO)] {
@@ -1310,7 +1410,7 @@ pub fn run_case(plan: &CasePlan, seed: u64, idx: u64) -> CaseResult {
         "case": idx, "family": family,
         "program": w.program.as_ref().map(|p| p.src.clone()),
         "export_plan": w.export_plan, "corruptions": w.corruptions, "import_plan": w.import_plan,
-        "via_lib": w.via_lib, "s5": w.s5.is_some(),
+        "via_lib": w.via_lib, "s5": w.s5.is_some(), "prior_ops": w.prior.len(),
         "raw_text": w.raw_text.as_ref().map(|t| String::from_utf8_lossy(t).chars().take(200).collect::<String>()),
         "outcome": sample_summary,
     });
